@@ -118,6 +118,16 @@ MUTANTS = {
     "empty_key_first_handler": ("typemap.py", "                if sig.req_pos == 0 and not sig.req_names\n            }", "                if sig.req_pos == 0\n            }", ["C03", "C01"]),
     "rename_drops_kwdefaults": ("recode.py", "    new_fn.__kwdefaults__ = fn.__kwdefaults__\n    new_fn.__annotations__ = fn.__annotations__\n    return new_fn\n\n\nclass NameConverter", "    new_fn.__annotations__ = fn.__annotations__\n    return new_fn\n\n\nclass NameConverter", ["C03"]),
     "rename_shares_defaults": ("recode.py", "        newcode, fn.__globals__, newname, fn.__defaults__, fn.__closure__\n    )\n    new_fn.__kwdefaults__", "        newcode, fn.__globals__, newname, None, fn.__closure__\n    )\n    new_fn.__kwdefaults__", ["C03"]),
+    # ---- C09
+    "rewriter_kw_before_pos": ("recode.py", "        type_parts = [\n            _make_lookup_call(i, arg) for i, arg in enumerate(node.args)\n        ]\n\n        # type index for keyword arguments\n        type_parts += [",
+                               "        type_parts = []\n        type_parts_pos = [\n            _make_lookup_call(i, arg) for i, arg in enumerate(node.args)\n        ]\n\n        # type index for keyword arguments\n        type_parts += [", ["C09"]),
+    "rewriter_skip_visit_arg": ("recode.py", "                value=self.visit(arg),", "                value=arg,", ["C09"]),
+    "recode_drop_kwdefaults": ("recode.py", "    new_fn.__kwdefaults__ = fn.__kwdefaults__\n    new_fn.__annotations__ = fn.__annotations__\n    new_fn = rename_function(new_fn, newname)", "    new_fn.__annotations__ = fn.__annotations__\n    new_fn = rename_function(new_fn, newname)", ["C09"]),
+    "recode_lineno_plus1": ("recode.py", "    ast.increment_lineno(new, fn.__code__.co_firstlineno - 1)", "    ast.increment_lineno(new, fn.__code__.co_firstlineno)", ["C09"]),
+    "recode_defaults_none": ("recode.py", "        new_code, fn.__globals__, newname, fn.__defaults__, new_closure", "        new_code, fn.__globals__, newname, None, new_closure", ["C09"]),
+    "rewriter_args_reversed": ("recode.py", "            + [\n                ast.Name(id=f\"{tmp}{i}\", ctx=ast.Load())\n                for i, arg in enumerate(node.args)\n            ],", "            + [\n                ast.Name(id=f\"{tmp}{i}\", ctx=ast.Load())\n                for i, arg in reversed(list(enumerate(node.args)))\n            ],", ["C09"]),
+    "rewriter_tmp_shared": ("recode.py", '        tmp = f"__TMP{next(self.count)}_"', '        tmp = "__TMP_"', ["C09"]),
+    "closure_wrong_cell": ("recode.py", "            fn.__closure__[fn.__code__.co_freevars.index(name)]", "            fn.__closure__[0]", ["C09"]),
     # ---- C17
     "ext_first_base_only": ("core.py", "                for other in others:\n                    prev.add_mixins(other)\n", "", ["C17"]),
     "ext_no_copy": ("core.py", "                prev = prev.copy()\n                for other in others:", "                for other in others:", ["C17"]),
